@@ -225,8 +225,12 @@ def verify_label(label):
 
 
 def get_date_type_respin(compose_id):
-    pattern = re.compile(r".*(?P<date>\d{8})(?P<type>\.[a-z]+)?(\.(?P<respin>\d+))?.*")
-    match = pattern.match(compose_id)
+    # Prefer the date that is followed only by the type and respin: the greedy
+    # prefix of the generic pattern would otherwise land inside a long respin.
+    match = re.match(r".*-(?P<date>\d{8})(?P<type>\.[a-z]+)?(\.(?P<respin>\d+))?$", compose_id)
+    if not match:
+        pattern = re.compile(r".*(?P<date>\d{8})(?P<type>\.[a-z]+)?(\.(?P<respin>\d+))?.*")
+        match = pattern.match(compose_id)
     if not match:
         return None, None, None
     result = match.groupdict()
